@@ -117,4 +117,19 @@ def explore(ctx):
         'runs_per_query': runs, 'chunked_runs': chunk_checked,
         'model_vs_impl_disagreements': sum(1 for r in results if r['corr']),
     }
+    # thread timing: the same big input through a consumer that keeps up and through one that stalls while the
+    # pipe and the channel fill up must give the same bytes
+    from props import c15
+    for n in ((30000,) if quick else (30000, 120000)):
+        q = '* | json | fields id'
+        data = b''.join(b'{"id": %d, "pad": "xxxxxxxxxxxxxxxxxxxxxxxxxxxxxxxxxxxxxxxx"}\n' % i for i in range(n))
+        fast = c15.run_scheduled(q, [(data, 0)], stall_before_read=0, timeout=120)
+        slow = c15.run_scheduled(q, [(data, 0)], stall_before_read=0.8, timeout=120)
+        a = [l for _t, l in fast[0]]
+        b = [l for _t, l in slow[0]]
+        cov['evaluations'] = cov.get('evaluations', 0) + 2
+        if a != b or fast[2] != slow[2]:
+            firstbad = next((i for i, (x, y) in enumerate(zip(a, b)) if x != y), min(len(a), len(b)))
+            failures.append({'kind': 'spec', 'what': 'the output depends on how fast the consumer reads: %d lines with a prompt consumer, %d with a stalled one (first difference at line %d)' % (len(a), len(b), firstbad),
+                             'payload': {'query': q, 'rows': n}})
     return {'coverage': cov, 'failures': failures}
